@@ -119,6 +119,65 @@ def run(ctx):
         b = R.add(twin)
         R.rel("eqpre", ["C11"], a=b, b=a)
         nb += 1
+    # EQU names that stand for LABELS (defined before the EQU, after it, or already mentioned by a forward branch), and bare
+    # aliases of EQU names that are only defined further down; the twin program has the label / the final constant written out
+    L = lambda nm: {"t": "l", "nm": nm, "add": 0}
+    def brs(mn, nm):
+        return {"k": "br", "mn": mn, "tgt": {"t": "l", "nm": nm, "add": 0}}
+    def use_all(nm, w):
+        return [{"k": "ins", "mn": "MOV", "ops": [{"t": "r", "w": w, "n": 3}, L(nm)]}, brs("JNE", nm), brs("CALL", nm),
+                {"k": "data", "mn": "DW", "items": [{"t": "e", "e": {"o": "id", "nm": nm}}]}]
+    for bits in (16, 32):
+        w = 16 if bits == 16 else 32
+        for org in (0x7c00, 0xc200):
+            for shape in ("label_before", "label_after_fwd_branch", "label_after", "bare_alias_fwd", "alias_chain_fwd"):
+                pre = [{"k": "org", "v": org}] + ([{"k": "bits", "v": 32}] if bits == 32 else [])
+                if shape == "label_before":
+                    body = [{"k": "label", "nm": "msg"}, {"k": "data", "mn": "DB", "items": [{"t": "s", "b": [104, 105]}, {"t": "e", "e": {"o": "n", "v": 0}}]},
+                            {"k": "equ", "nm": "MSGQ", "e": {"o": "id", "nm": "msg"}}]
+                    uses = lambda nm: use_all(nm, w)
+                    tw = "msg"
+                    tail = []
+                elif shape == "label_after_fwd_branch":
+                    body = [brs("JMP", "fin"), {"k": "ins", "mn": "NOP", "ops": []}, {"k": "equ", "nm": "MSGQ", "e": {"o": "id", "nm": "fin"}}]
+                    uses = lambda nm: [u for u in use_all(nm, w) if u["k"] != "data"]
+                    tw = "fin"
+                    tail = [{"k": "label", "nm": "fin"}, {"k": "ins", "mn": "HLT", "ops": []}]
+                elif shape == "label_after":
+                    body = [{"k": "equ", "nm": "MSGQ", "e": {"o": "id", "nm": "fin"}}]
+                    uses = lambda nm: [u for u in use_all(nm, w) if u["k"] != "data"]
+                    tw = "fin"
+                    tail = [{"k": "label", "nm": "fin"}, {"k": "ins", "mn": "HLT", "ops": []}]
+                elif shape == "bare_alias_fwd":
+                    body = [{"k": "equ", "nm": "MSGQ", "e": {"o": "id", "nm": "KBC"}}, {"k": "equ", "nm": "KBC", "e": {"o": "n", "v": 0x60, "sty": "h"}}]
+                    uses = lambda nm: [{"k": "ins", "mn": "IN", "ops": [{"t": "r", "w": 8, "n": 0}, L(nm)]}, {"k": "ins", "mn": "MOV", "ops": [{"t": "r", "w": 8, "n": 1}, L(nm)]},
+                                       {"k": "data", "mn": "DB", "items": [{"t": "e", "e": {"o": "id", "nm": nm}}]}, {"k": "resb", "e": {"o": "-", "a": {"o": "id", "nm": nm}, "b": {"o": "n", "v": 0x50}}}]
+                    tw = None
+                    tail = []
+                else:
+                    body = [{"k": "equ", "nm": "MSGQ", "e": {"o": "id", "nm": "MID"}}, {"k": "equ", "nm": "MID", "e": {"o": "id", "nm": "KBC"}},
+                            {"k": "equ", "nm": "KBC", "e": {"o": "+", "a": {"o": "n", "v": 0x60, "sty": "h"}, "b": {"o": "n", "v": 4}}}]
+                    uses = lambda nm: [{"k": "ins", "mn": "MOV", "ops": [{"t": "r", "w": 8, "n": 1}, L(nm)]}, {"k": "data", "mn": "DW", "items": [{"t": "e", "e": {"o": "id", "nm": nm}}]}]
+                    tw = None
+                    tail = []
+                a = R.add(pre + body + uses("MSGQ") + tail + [{"k": "label", "nm": "endp"}])
+                if tw is not None:
+                    b = R.add(pre + [x for x in body if x["k"] != "equ"] + uses(tw) + tail + [{"k": "label", "nm": "endp"}])
+                else:
+                    val = 0x60 if shape == "bare_alias_fwd" else 0x64
+                    lit = lambda nm: None
+                    def sub(u):
+                        u = json.loads(json.dumps(u))
+                        if u["k"] == "ins":
+                            u["ops"] = [({"t": "i", "v": val, "sty": "h"} if o.get("nm") == "MSGQ" else o) for o in u["ops"]]
+                        if u["k"] == "data":
+                            u["items"] = [{"t": "e", "e": {"o": "n", "v": val, "sty": "h"}}]
+                        if u["k"] == "resb":
+                            u["e"] = {"o": "-", "a": {"o": "n", "v": val, "sty": "h"}, "b": {"o": "n", "v": 0x50}}
+                        return u
+                    b = R.add(pre + [sub(u) for u in uses("MSGQ")] + tail + [{"k": "label", "nm": "endp"}])
+                R.rel("eq", ["C11"], a=b, b=a)
+                nb += 1
     R.run()
     ctx.widen_tags = ["C05", "C06", "C01"]
     return relcheck.finish(ctx, "C11", R, None,
